@@ -125,6 +125,16 @@ def run_miri_diff(prop, stage, tier, seed, build, log):
                                       "rsmon_stage": None, "case_seed": None, "build": "miri"})
             r["violation_count"] += 1
             continue
+        if verdict != "inconclusive" and rc != 0 and "panicked at" in err:
+            # the interpreted program itself panicked: a failed assertion of the
+            # workload (e.g. a restored shard is wrong) or a panic inside the crate
+            m = re.search(r"panicked at ([^\n]*)\n([^\n]*)", err)
+            where = m.group(1).split("/")[-1] if m else "?"
+            res["violations"].append({"sig": f"miri-run:panic:{name}:{re.sub(r'[0-9]+', 'N', where)[:60]}",
+                                      "detail": f"{name}: {err[m.start():m.start() + 800] if m else err[-800:]}",
+                                      "stage": stage["name"], "rsmon_stage": None, "case_seed": None, "build": "miri"})
+            r["violation_count"] += 1
+            continue
         if verdict == "inconclusive" or rc != 0:
             res["inconclusive"].append(f"stage {stage['name']}/{name}: {excerpt or 'exit ' + str(rc) + ': ' + err[-400:]}")
             continue
